@@ -37,8 +37,13 @@ def _child(rec):
     warnings.simplefilter("ignore")
     names = rec["batch"]
     rpa = rec["exc"] == "rpa"
-    cfg = {"batch": names, "rotate": rec["rotate"], "distort": 0.03, "geom_seed": rec["seed"]}
+    cfg = {"batch": names, "rotate": rec["rotate"], "distort": rec.get("distort", 0.03), "geom_seed": rec["seed"]}
     sp_np, xyz_np = mdsim.build_batch(cfg)
+    if rec.get("first_perfect"):
+        # symmetric (degenerate) first member next to distorted copies: the degeneracy handling of the start
+        # space is batch-global
+        _, xyz0 = mdsim.build_batch(dict(cfg, distort=0.0))
+        xyz_np[0] = xyz0[0]
     species = torch.as_tensor(sp_np, dtype=torch.int64)
     g = torch.Generator().manual_seed(rec["seed"] % (1 << 62))
     homogeneous = len(set(names)) == 1
@@ -211,6 +216,12 @@ def gen(rng, tier):
         nbig = 3 if exc == "rpa" else 2
         rec["mem"] = int(S * nov * len(batch) * 8 * nbig / 0.4) + 1
         rec["subspace_limit"] = S
+    # symmetric molecules with exactly degenerate states: undistorted geometry, or a perfect first member
+    u2 = rng.random()
+    if u2 < 0.15:
+        rec["distort"] = 0.0
+    elif u2 < 0.3 and len(batch) > 1:
+        rec["first_perfect"] = True
     ops = [{"op": "SOLVE", "start": "fresh"}]
     for _ in range(rng.randint(1, 5)):
         ops.append({"op": "MOVE", "sigma": rng.choice([0.005, 0.02, 0.05])})
@@ -300,6 +311,8 @@ def _execute(record, root):
         stats["probes"]["restricted_memory_sessions"] = 1
     if len(set(names)) > 1:
         stats["probes"]["mixed_batch_sessions"] = 1
+    if record.get("distort") == 0.0 or record.get("first_perfect"):
+        stats["probes"]["exactly_symmetric_start_geometries"] = 1
     sig = [names, record["method"], record["exc"], record["n_states"], record["tol"], record["best_guess"], record.get("subspace_limit"), [o.get("start") for o in record["ops"] if o["op"] == "SOLVE"]]
     sample = {"session": record, "solves": [{"start": e["start"], "exc": e.get("exc"), "nroots": e.get("nroots"), "energies": (e.get("energies") or [[]])[0][:4]} for e in out]}
     dig = core.digest([[e.get("exc"), [[round(x, 8) for x in row] for row in (e.get("energies") or [])]] for e in out])
